@@ -166,6 +166,7 @@ impl Property for C04 {
         sim.main = 1;
         let b_tip = sim.w.chains[1].tip();
         let store_before = sim.w.store_digest();
+        let fork_point = f;
         if case.reconnect || case.restart_before_switch {
             for p in sim.w.connected_peers() {
                 sim.w.disconnect(p.index);
@@ -237,7 +238,7 @@ impl Property for C04 {
                     let a = &sim.w.chains[0];
                     let bch = &sim.w.chains[1];
                     if let Some((_, _, hashes)) = sim.w.storage().get_earliest_matched_blocks() {
-                        if hashes.iter().any(|(h, _)| a.number_of(h).map(|n| n > f).unwrap_or(false) && bch.number_of(h).is_none()) {
+                        if hashes.iter().any(|(h, _)| a.number_of(h).map(|n| n > fork_point).unwrap_or(false) && bch.number_of(h).is_none()) {
                             sig = "after-switch/stuck/waiting-for-a-block-of-the-abandoned-branch".to_string();
                         }
                     }
